@@ -89,6 +89,15 @@ func vhCurLen(c *Currency, l int) {
 	}
 }
 
+// vhU64Len constrains a uint64 that is encoded as a v1 currency to l bytes (max 8).
+func vhU64Len(v *uint64, l int) {
+	if l > 8 {
+		l = 8
+	}
+	c := Currency{Lo: *v}
+	vhCurLen(&c, l)
+}
+
 func vhNormalize(id string, v any) {
 	// StateElement.shared is documented as not transmitted
 	vh.ForEach(v, func(se *StateElement) { se.shared = false })
@@ -96,6 +105,7 @@ func vhNormalize(id string, v any) {
 		lens := []int{0, 1, 8, 9, 16}
 		l := lens[vh.Choice("v1len", len(lens))]
 		vh.ForEach(v, func(c *Currency) { vhCurLen(c, l) })
+		vh.ForEach(v, func(o *SiafundOutput) { vhU64Len(&o.Value, l) })
 	}
 	// the v1 view of a block does not transmit the v2 data
 	if b, ok := v.(*V1Block); ok {
